@@ -422,3 +422,25 @@ V('c11-setqualifier-check-after', 'C11', 'C11.R1',
 V('c11-multins-validate-in-write-loop', 'C11', 'C11.R1',
   (IWPF, "        # Modify the instance path for each namespace\n        for ns, path in modified_instance_paths.items():\n            instance_store = self.cimrepository.get_instance_store(ns)\n",
          "        # Modify the instance path for each namespace\n        for ns, path in modified_instance_paths.items():\n            instance_store = self.cimrepository.get_instance_store(ns)\n            _ = self.get_required_class(modified_instance, ns)\n"), 'modify_multi_namespace_instance')
+
+# ---- C08 ------------------------------------------------------------------
+V('c08-apostrophe', 'C08', 'C08.R1',
+  (MOFF, "        elif ch == \"'\":\n            rv += \"'\"\n", ""), 'unhandled-escape')
+V('c08-reader-wrong-char', 'C08', 'C08.R1',
+  (MOFF, "        elif ch == 'f':\n            rv += '\\f'", "        elif ch == 'f':\n            rv += '\\v'"), 'reader-mismatch')
+V('c08-writer-new-escape', 'C08', 'C08.R1',
+  (OBJ, "        replace('\\u0007', '\\\\x0007').", "        replace('\\u0007', '\\\\a')."), 'not-in-lexer')
+V('c08-writer-drops-cr', 'C08', 'C08.R1',
+  (OBJ, "        replace('\\f', '\\\\f').\\\n        replace('\\r', '\\\\r')", "        replace('\\f', '\\\\f')"), 'raw-forbidden')
+V('c08-escape-order', 'C08', 'C08.R2',
+  [(OBJ, r"""    escaped_str = escaped_str.replace('\\', '\\\\')
+""", ""),
+   (OBJ, r"""    escaped_str = escaped_str.replace("'", "\\'")
+    return escaped_str""", r"""    escaped_str = escaped_str.replace("'", "\\'")
+    escaped_str = escaped_str.replace('\\', '\\\\')
+    return escaped_str""")],
+  'order')
+V('c08-flavor-keyword', 'C08', 'C08.R5',
+  (OBJ, "            mof_flavors.append('Restricted')", "            mof_flavors.append('NoSubclass')"), 'flavor-keyword')
+V('c08-pragma-raw', 'C08', 'C08.R4',
+  (MOFF, "    \"\"\"pragmaParameter : stringValue\"\"\"\n    p[0] = _fixStringValue(p[1], p)", "    \"\"\"pragmaParameter : stringValue\"\"\"\n    p[0] = p[1][1:-1]"), 'p_pragmaParameter')
